@@ -874,10 +874,10 @@ func mentionsSite(x *SExpr) bool {
 	if x == nil {
 		return false
 	}
-	if x.Op == "call" && len(x.Args) > 0 && x.Args[0] != nil && x.Args[0].Op == "ident" && (x.Args[0].Name == "site" || x.Args[0].Name == "sitearg" || x.Args[0].Name == "siteret" || x.Args[0].Name == "at" || x.Args[0].Name == "after") {
+	if x.Op == "call" && len(x.Args) > 0 && x.Args[0] != nil && x.Args[0].Op == "ident" && (x.Args[0].Name == "site" || x.Args[0].Name == "sitearg" || x.Args[0].Name == "siteret" || x.Args[0].Name == "at" || x.Args[0].Name == "after" || x.Args[0].Name == "returnsmethod") {
 		return true
 	}
-	if x.Op == "call" && (x.Name == "site" || x.Name == "sitearg" || x.Name == "siteret" || x.Name == "at" || x.Name == "after") {
+	if x.Op == "call" && (x.Name == "site" || x.Name == "sitearg" || x.Name == "siteret" || x.Name == "at" || x.Name == "after" || x.Name == "returnsmethod") {
 		return true
 	}
 	for _, a := range x.Args {
